@@ -347,7 +347,11 @@ def build(ctx):
         win = ctx.g("win", node)
         tmo = ctx.g("tmo", node)
         stmo = ctx.g("stmo", node)
-        kwds = dict(jobs_window=None if win == 0 else win,
+        watch = None
+        if ctx.h.get("watch"):
+            from asynciojobs import Watch
+            watch = Watch(show_elapsed=False)
+        kwds = dict(watch=watch, jobs_window=None if win == 0 else win,
                     timeout=None if tmo < 0 else tmo,
                     shutdown_timeout=None if stmo < 0 else stmo,
                     verbose=bool(ctx.h.get("verbose", False)))
